@@ -308,6 +308,9 @@ func (a *Act) contractCall(instr ssa.Instruction, callee *ssa.Function, ct *Cont
 			if ghostSort(g.Type) == SortAsg {
 				allAsg = append(allAsg, g)
 			}
+		} else if gt := (&Env{a: a, vars: map[string]Val{}, st: a.cur, pkg: callee.Pkg, fn: callee}).lookupType(g.Type); gt != nil {
+			// a ghost of a Go type that the caller does not instantiate: one arbitrary value
+			vars[g.Name] = a.freshVal(gt, "ghost_"+g.Name, a.cur)
 		} else {
 			qghost = append(qghost, g)
 		}
